@@ -121,14 +121,14 @@ static uint64_t anyCapacity(const Params &p, const Key *keys, const bool initial
     const uint64_t e0 = keys[0].len + OVERHEAD + 8, e1 = keys[1].len + OVERHEAD + 8, e2 = keys[2].len + OVERHEAD + 8;
     // room for: one small entry but not the two smallest / any two but not all three / everything / (later) nothing / exactly the smallest entry
     const uint64_t caps[] = {e0 + e1 - 1, e0 + e1 + e2 - 1, UINT64_MAX, 0, e0};
-    return caps[pick(initial ? 3 : 5, "capacity")];
+    return caps[pick(!initial ? 5 : p.symbolicTime ? 2 : 3, "capacity")];
 }
 
 static void clpSequence(const Params p)
 {
     vf_quiet();
     Key keys[NKEYS];
-    for (unsigned k = 0; k < NKEYS; ++k) { keys[k].id = k + 1; keys[k].len = p.symbolicSizes ? vf_nondet_u8("keyLength") : 3 + 5 * k; }
+    for (unsigned k = 0; k < NKEYS; ++k) { keys[k].id = k + 1; keys[k].len = 3 + 5 * k + (p.symbolicSizes && k == 0 ? vf_nondet_u8("keyLength") : 0); }
     squid_curtime = 1000;
     if (p.symbolicTime && vf_bool("lateStart")) squid_curtime = TMAX - vf_nondet_u16("beforeTheEndOfTime"); // expiry times saturate
     const uint64_t cap0 = anyCapacity(p, keys, true);
@@ -138,11 +138,13 @@ static void clpSequence(const Params p)
     for (unsigned step = 0; step < p.nops; ++step) {
         const bool last = step + 1 == p.nops;
         // the last operation is one whose effect depends on the recency order (get/del/clock change nothing compare() could see later)
-        const unsigned op = last && !p.symbolicTime ? (pick(2, "op") ? 3 : 0) : pick(p.symbolicTime ? 5 : 4, "op");
+        static const unsigned lruOps[] = {0, 1, 2, 3}, ttlOps[] = {0, 1, 4}, lastOps[] = {0, 3};
+        const unsigned op = p.symbolicTime ? ttlOps[pick(3, "op")] : last ? lastOps[pick(2, "op")] : lruOps[pick(4, "op")];
         const time_t now = squid_curtime;
         if (op == 0) { // add
-            const Key &k = keys[pick(p.nkeys, "key")];
-            uint64_t size = 8;
+            const unsigned variant = pick(p.nkeys + (p.symbolicSizes || p.symbolicTime ? 0 : 1), "key"); // the extra variant: key 1 with a larger value
+            const Key &k = keys[variant % p.nkeys];
+            uint64_t size = variant < p.nkeys ? 8 : 40;
             if (p.symbolicSizes) { size = vf_nondet_u8("valueSize"); if (vf_bool("hugeValue")) size = UINT64_MAX - size; }
             const Val v = {(int)vf_nondet_u32("value"), size};
             int ttl = 1000000;
@@ -175,16 +177,16 @@ static void clpSequence(const Params p)
 
 #ifdef VF_THOROUGH
 #define N_LRU 5
-#define N_TTL 5
-#define N_SIZES 4
-#else
-#define N_LRU 4
 #define N_TTL 4
 #define N_SIZES 3
+#else
+#define N_LRU 4
+#define N_TTL 3
+#define N_SIZES 2
 #endif
 // capacity/LRU: concrete sizes, capacities from a list, no expiry
 extern "C" void c51_lru(void) { clpSequence(Params{false, false, 3, N_LRU}); }
-// lifetime: concrete sizes, symbolic TTLs and clock, two keys
+// lifetime: concrete sizes, symbolic TTLs and clock, two keys, capacity for one entry or unlimited, operations add/get/clock
 extern "C" void c51_ttl(void) { clpSequence(Params{false, true, 2, N_TTL}); }
 // accounting: symbolic key lengths, value sizes and capacities, no expiry
 extern "C" void c51_sizes(void) { clpSequence(Params{true, false, 3, N_SIZES}); }
